@@ -282,6 +282,13 @@ func (session *ClientCommandSession) runReadLoop() {
 				}
 				if isInterleaved {
 					session.observer.OnInterleavedPacket(packet, int(channel))
+				} else {
+					// 不是interleaved包时readInterleaved没有消费数据，这里必须把这段数据读走（信令回复）或者结束（无法解析），
+					// 否则会原地空转
+					if _, err := readHttpResponseMessage(r); err != nil {
+						loopErr = err
+						return
+					}
 				}
 			}
 		}
